@@ -27,6 +27,7 @@ type SpecCase struct {
 	ByteEnum       bool         `json:"byte_enum,omitempty"`
 	OrderPolicies  int          `json:"order_policies,omitempty"`
 	WitnessEvery   int          `json:"witness_every,omitempty"`
+	MaxWitnesses   int          `json:"max_witnesses,omitempty"`
 	What           string       `json:"what,omitempty"`
 }
 
@@ -36,6 +37,8 @@ type SpecProp struct {
 	Bounds      map[string]string `json:"bounds"`
 	Outside     []string          `json:"outside"`
 	Assumptions []string          `json:"assumptions"`
+	// cap on natively replayed path witnesses for the whole check (default 400 quick / 2000 thorough)
+	MaxWitnesses int `json:"max_witnesses,omitempty"`
 }
 
 type Spec struct {
@@ -118,7 +121,8 @@ func Check(cfg Config, prop string) int {
 			}
 		}
 		for _, ps := range params {
-			c := Case{Pkg: sc.Pkg, Func: sc.Func, Params: ps, MaxPaths: sc.MaxPaths, MaxSteps: sc.MaxSteps, MaxMapPerm: sc.MaxMapPerm, ByteEnum: sc.ByteEnum, OrderPolicies: sc.OrderPolicies, Reach: sc.Reach, WitnessEvery: sc.WitnessEvery}
+			c := Case{Pkg: sc.Pkg, Func: sc.Func, Params: ps, MaxPaths: sc.MaxPaths, MaxSteps: sc.MaxSteps, MaxMapPerm: sc.MaxMapPerm, ByteEnum: sc.ByteEnum, OrderPolicies: sc.OrderPolicies, Reach: sc.Reach, WitnessEvery: sc.WitnessEvery, MaxWitnesses: sc.MaxWitnesses}
+			explicitEvery := c.WitnessEvery != 0
 			if c.WitnessEvery == 0 {
 				if cfg.Tier == "thorough" {
 					c.WitnessEvery = 97
@@ -127,7 +131,9 @@ func Check(cfg Config, prop string) int {
 				}
 			}
 			// the seed shifts which paths are sampled as witnesses
-			c.WitnessEvery += int(cfg.Seed % 7)
+			if !explicitEvery {
+				c.WitnessEvery += int(cfg.Seed % 7)
+			}
 			rep := s.Explore(c)
 			reports = append(reports, rep)
 			fmt.Printf("  %-44s paths=%-7d %v steps=%d %.1fs\n", c.String(), rep.TotalPaths, rep.Paths, rep.Steps, rep.Wall)
@@ -142,6 +148,9 @@ func Check(cfg Config, prop string) int {
 	maxW := 400
 	if cfg.Tier == "thorough" {
 		maxW = 2000
+	}
+	if sp.MaxWitnesses > 0 {
+		maxW = sp.MaxWitnesses
 	}
 	cases = capWitnesses(cases, maxW)
 	rr := s.ReplayCases(cases)
